@@ -198,6 +198,22 @@ func (c11) Expand(pj json.RawMessage) []json.RawMessage {
 			add(f)
 		}
 	}
+	// a device that keeps transferring less than asked: from some transfer on,
+	// EVERY pwrite (or pread) is short -- a retry loop must give up loudly, not
+	// return after its last attempt as if it had succeeded
+	for _, op := range []string{"pwrite", "pread"} {
+		n := 0
+		for _, rec := range pr.trace {
+			if rec.Op == op {
+				n++
+			}
+		}
+		for k := 0; k < n && k < 3; k++ {
+			for _, short := range []int{1000, 0} {
+				add(simunix.Fault{Kind: "short", Short: short, Op: op, At: k, Sticky: true})
+			}
+		}
+	}
 	// sampled double faults (seeded by the plan): two different system calls
 	if n := len(pr.trace); n >= 2 {
 		rng := simrt.NewRand(planHash(pj, "double-fault"))
